@@ -1,6 +1,228 @@
-//! `vh summary`: see /verif/docs/MODULE_CONTRACT.md
+//! `vh summary`: measure the raw data the summary fields of a font are defined over (C17).
+//!
+//! stdin: one JSON request per line  {"id": "...", "font": "<path>", "meta": {...}}
+//! stdout: one JSON observation per line (see spec/Summary.tla for the vocabulary).
+//!
+//! This side only MEASURES: it decodes the binary tables with read-fonts and copies numbers out. No maximum,
+//! minimum, union, average or component resolution happens here; the definitions of the summary fields live
+//! in spec/Summary.tla and TLC evaluates them over these records.
+
+use std::io::{BufRead, Write};
+
+use serde_json::{Map, Value, json};
+use skrifa::raw::{
+    FontRef, TableProvider,
+    tables::glyf::{Anchor, Glyph},
+    types::{GlyphId, Tag},
+};
+
+fn u16_at(d: &[u8], off: usize) -> Option<u32> {
+    d.get(off..off + 2)
+        .map(|b| u16::from_be_bytes([b[0], b[1]]) as u32)
+}
+
+fn u32_at(d: &[u8], off: usize) -> Option<u32> {
+    d.get(off..off + 4)
+        .map(|b| u32::from_be_bytes([b[0], b[1], b[2], b[3]]))
+}
+
+fn halves(v: u32) -> Value {
+    json!([v >> 16, v & 0xFFFF])
+}
+
+/// Per-glyph raw data of glyf: kind, stored box, contour count, point coordinates, component records.
+pub fn glyph_table(font: &FontRef, ng: u32) -> Result<Vec<Value>, String> {
+    let loca = font.loca(None).map_err(|e| format!("loca: {e}"))?;
+    let glyf = font.glyf().map_err(|e| format!("glyf: {e}"))?;
+    let mut v = Vec::with_capacity(ng as usize);
+    for gid in 0..ng {
+        let g = loca.get_glyf(GlyphId::new(gid), &glyf);
+        v.push(match g {
+            Ok(None) => json!({"k": "e"}),
+            Ok(Some(Glyph::Simple(s))) => {
+                let mut xs = Vec::new();
+                let mut ys = Vec::new();
+                for p in s.points() {
+                    xs.push(p.x);
+                    ys.push(p.y);
+                }
+                json!({"k": "s", "b": [s.x_min(), s.y_min(), s.x_max(), s.y_max()],
+                       "nc": s.number_of_contours(), "px": xs, "py": ys})
+            }
+            Ok(Some(Glyph::Composite(c))) => {
+                let comps: Vec<Value> = c
+                    .components()
+                    .map(|k| {
+                        let (dx, dy, xy_args) = match k.anchor {
+                            Anchor::Offset { x, y } => (x as i32, y as i32, true),
+                            Anchor::Point { base, component } => (base as i32, component as i32, false),
+                        };
+                        json!({"g": k.glyph.to_u16(), "dx": dx, "dy": dy, "xyargs": xy_args,
+                               "xx": k.transform.xx.to_bits(), "yx": k.transform.yx.to_bits(),
+                               "xy": k.transform.xy.to_bits(), "yy": k.transform.yy.to_bits(),
+                               "fl": k.flags.bits()})
+                    })
+                    .collect();
+                json!({"k": "c", "b": [c.x_min(), c.y_min(), c.x_max(), c.y_max()], "c": comps})
+            }
+            Err(e) => json!({"k": "x", "err": e.to_string()}),
+        });
+    }
+    Ok(v)
+}
+
+/// Raw loca entries (decoded per head.indexToLocFormat by hand; short entries are doubled as the format says).
+pub fn loca_raw(font: &FontRef) -> Value {
+    let fmt = font.head().map(|h| h.index_to_loc_format()).unwrap_or(-1);
+    let Some(d) = font.table_data(Tag::new(b"loca")) else {
+        return Value::Null;
+    };
+    let d = d.as_bytes();
+    let mut offs: Vec<u32> = Vec::new();
+    if fmt == 0 {
+        let mut i = 0;
+        while let Some(v) = u16_at(d, i) {
+            offs.push(v * 2);
+            i += 2;
+        }
+    } else if fmt == 1 {
+        let mut i = 0;
+        while let Some(v) = u32_at(d, i) {
+            // TLC integers are 32-bit signed
+            offs.push(v.min(0x7FFF_FFFF));
+            i += 4;
+        }
+    }
+    let glyf_len = font
+        .table_data(Tag::new(b"glyf"))
+        .map(|g| g.len())
+        .unwrap_or(0);
+    json!({"fmt": fmt, "len": d.len(), "offs": offs, "glyf_len": glyf_len})
+}
+
+pub fn observe(data: &[u8]) -> Result<Map<String, Value>, String> {
+    let font = FontRef::new(data).map_err(|e| format!("cannot parse font: {e}"))?;
+    let mut o = Map::new();
+    let maxp = font.maxp().map_err(|e| format!("maxp: {e}"))?;
+    let ng = maxp.num_glyphs() as u32;
+    o.insert("n".into(), json!(ng));
+    o.insert(
+        "maxp".into(),
+        json!({"points": maxp.max_points().unwrap_or(0), "contours": maxp.max_contours().unwrap_or(0),
+               "cpoints": maxp.max_composite_points().unwrap_or(0), "ccontours": maxp.max_composite_contours().unwrap_or(0),
+               "celems": maxp.max_component_elements().unwrap_or(0), "cdepth": maxp.max_component_depth().unwrap_or(0)}),
+    );
+    o.insert("g".into(), json!(glyph_table(&font, ng)?));
+    o.insert("loca".into(), loca_raw(&font));
+    let head = font.head().map_err(|e| format!("head: {e}"))?;
+    o.insert(
+        "head".into(),
+        json!({"b": [head.x_min(), head.y_min(), head.x_max(), head.y_max()],
+               "locfmt": head.index_to_loc_format(), "flags": head.flags().bits()}),
+    );
+    // horizontal
+    let hhea = font.hhea().map_err(|e| format!("hhea: {e}"))?;
+    o.insert(
+        "hhea".into(),
+        json!({"advmax": hhea.advance_width_max().to_u16(), "minfirst": hhea.min_left_side_bearing().to_i16(),
+               "minsecond": hhea.min_right_side_bearing().to_i16(), "maxextent": hhea.x_max_extent().to_i16(),
+               "nlong": hhea.number_of_h_metrics(),
+               "len": font.table_data(Tag::new(b"hmtx")).map(|d| d.len()).unwrap_or(0)}),
+    );
+    let hmtx = font.hmtx().map_err(|e| format!("hmtx: {e}"))?;
+    let mut adv = Vec::new();
+    let mut lsb = Vec::new();
+    for gid in 0..ng {
+        adv.push(hmtx.advance(GlyphId::new(gid)).map(|v| v as i32).unwrap_or(-1));
+        lsb.push(hmtx.side_bearing(GlyphId::new(gid)).map(|v| v as i32).unwrap_or(-99999));
+    }
+    o.insert("adv".into(), json!(adv));
+    o.insert("lsb".into(), json!(lsb));
+    // vertical
+    if let (Ok(vhea), Ok(vmtx)) = (font.vhea(), font.vmtx()) {
+        o.insert(
+            "vhea".into(),
+            json!({"advmax": vhea.advance_height_max().to_u16(), "minfirst": vhea.min_top_side_bearing().to_i16(),
+                   "minsecond": vhea.min_bottom_side_bearing().to_i16(), "maxextent": vhea.y_max_extent().to_i16(),
+                   "nlong": vhea.number_of_long_ver_metrics(),
+                   "len": font.table_data(Tag::new(b"vmtx")).map(|d| d.len()).unwrap_or(0)}),
+        );
+        let mut vadv = Vec::new();
+        let mut tsb = Vec::new();
+        for gid in 0..ng {
+            vadv.push(vmtx.advance(GlyphId::new(gid)).map(|v| v as i32).unwrap_or(-1));
+            tsb.push(vmtx.side_bearing(GlyphId::new(gid)).map(|v| v as i32).unwrap_or(-99999));
+        }
+        o.insert("vadv".into(), json!(vadv));
+        o.insert("tsb".into(), json!(tsb));
+        o.insert("hasv".into(), json!(true));
+    } else {
+        o.insert("hasv".into(), json!(false));
+    }
+    // OS/2
+    let os2 = font.os2().map_err(|e| format!("OS/2: {e}"))?;
+    o.insert(
+        "os2".into(),
+        json!({"version": os2.version(), "xavg": os2.x_avg_char_width(),
+               "first": os2.us_first_char_index(), "last": os2.us_last_char_index(),
+               "ur": [halves(os2.ul_unicode_range_1()), halves(os2.ul_unicode_range_2()),
+                      halves(os2.ul_unicode_range_3()), halves(os2.ul_unicode_range_4())],
+               "hascpr": os2.ul_code_page_range_1().is_some(),
+               "cpr": [halves(os2.ul_code_page_range_1().unwrap_or(0)), halves(os2.ul_code_page_range_2().unwrap_or(0))],
+               "maxctx": os2.us_max_context().map(|v| v as i32).unwrap_or(-1)}),
+    );
+    // cmap: every code point of every Unicode subtable (distinct, sorted)
+    // (except the 0xFFFF -> glyph 0 end marker every format 4 subtable carries)
+    let mut cps: Vec<u32> = crate::sfnt::cmap_pairs(&font)
+        .into_iter()
+        .filter(|(c, g)| !(*c == 0xFFFF && *g == 0))
+        .map(|(c, _)| c)
+        .collect();
+    cps.sort();
+    cps.dedup();
+    o.insert("cmap".into(), json!(cps));
+    // layout: context lengths of every rule of every lookup
+    o.insert("lay".into(), crate::sfnt::layout_contexts(&font));
+    Ok(o)
+}
 
 pub fn run(_args: &[String]) -> i32 {
-    eprintln!("vh summary: not implemented yet");
-    2
+    std::panic::set_hook(Box::new(|_| {}));
+    let stdin = std::io::stdin();
+    let stdout = std::io::stdout();
+    for line in stdin.lock().lines() {
+        let Ok(line) = line else { break };
+        if line.trim().is_empty() {
+            continue;
+        }
+        let req: Value = match serde_json::from_str(&line) {
+            Ok(r) => r,
+            Err(e) => {
+                eprintln!("bad request: {e}");
+                return 2;
+            }
+        };
+        let id = req.get("id").cloned().unwrap_or(Value::Null);
+        let meta = req.get("meta").cloned().unwrap_or(json!({}));
+        let path = req.get("font").and_then(|v| v.as_str()).unwrap_or("");
+        let res = match std::fs::read(path) {
+            Err(e) => json!({"id": id, "outcome": "error", "message": format!("cannot read {path}: {e}")}),
+            Ok(data) => {
+                match std::panic::catch_unwind(std::panic::AssertUnwindSafe(|| observe(&data))) {
+                    Ok(Ok(mut o)) => {
+                        o.insert("id".into(), id);
+                        o.insert("meta".into(), meta);
+                        o.insert("outcome".into(), json!("ok"));
+                        Value::Object(o)
+                    }
+                    Ok(Err(e)) => json!({"id": id, "outcome": "unreadable", "message": e}),
+                    Err(p) => json!({"id": id, "outcome": "panic", "message": crate::compile::panic_message(p)}),
+                }
+            }
+        };
+        let mut out = stdout.lock();
+        let _ = writeln!(out, "{res}");
+        let _ = out.flush();
+    }
+    0
 }
